@@ -1,15 +1,20 @@
 import MontePyVerif.Model.Write
 /-! Helper lemmas about `Model/Write.lean` for C15: the `with` body never touches the destination
-    (frame), and a body that ends without an exception has appended exactly the closed-form text to
-    the temporary file (functional correctness). Core tactics only. -/
+    (frame), and a body that ends without an exception has accepted exactly the closed-form text:
+    it is in the temporary file followed by Python's buffer, whatever the buffering policy
+    (functional correctness). Core tactics only. -/
 namespace MontePyVerif.Write
 open MontePyVerif.Gen.WriteOrder (Seg)
 
-/-! ## frame: nothing but the temporary changes inside the `with` block -/
+/-- the text accepted so far by the handle: what has reached the temporary file, followed by what is
+    still in Python's buffer -/
+def Acc (w : W) (c : List String) : Prop := ∃ t, w.fs.tmp = some t ∧ t ++ w.buf = c
+
+/-! ## frame: nothing but the temporary and the buffer changes inside the `with` block -/
 
 theorem doWrite_dest (plan : Fault) (w : W) (l : String) : (doWrite plan w l).1.fs.dest = w.fs.dest := by
   unfold doWrite
-  cases plan <;> simp only [fsAppendTmp] <;> (repeat' split) <;> rfl
+  cases plan <;> simp only [fsFlushTmp] <;> (repeat' split) <;> rfl
 
 theorem writeLines_dest (plan : Fault) (w : W) (ls : List String) : (writeLines plan w ls).1.fs.dest = w.fs.dest := by
   induction ls generalizing w with
@@ -21,16 +26,17 @@ theorem writeLines_dest (plan : Fault) (w : W) (ls : List String) : (writeLines 
     · next w' e heq => rw [heq] at h; exact h
     · next w' heq => rw [heq] at h; rw [ih]; exact h
 
-theorem doFormat_fs (plan : Fault) (w : W) (o : Fmt) : (doFormat plan w o).1.fs = w.fs := by
+theorem doFormat_fs (plan : Fault) (w : W) (o : Fmt) :
+    (doFormat plan w o).1.fs = w.fs ∧ (doFormat plan w o).1.buf = w.buf := by
   unfold doFormat
-  cases plan <;> cases o <;> simp only [] <;> (repeat' split) <;> rfl
+  cases plan <;> cases o <;> dsimp only <;> (repeat' split) <;> first | exact ⟨rfl, rfl⟩ | simp
 
 theorem writeObjects_dest (plan : Fault) (w : W) (os : List Fmt) : (writeObjects plan w os).1.fs.dest = w.fs.dest := by
   induction os generalizing w with
   | nil => rfl
   | cons o t ih =>
     simp only [writeObjects]
-    have h := doFormat_fs plan w o
+    have h := (doFormat_fs plan w o).1
     split
     · next w' e heq => rw [heq] at h; dsimp only at h ⊢; rw [h]
     · next w' ls heq =>
@@ -40,9 +46,10 @@ theorem writeObjects_dest (plan : Fault) (w : W) (os : List Fmt) : (writeObjects
       · next w'' e heq2 => rw [heq2] at h2; dsimp only at h h2 ⊢; rw [h2, h]
       · next w'' heq2 => rw [heq2] at h2; dsimp only at h h2 ⊢; rw [ih, h2, h]
 
-theorem runChildrenFormat_fs (plan : Fault) (w : W) (os : List Fmt) : (runChildrenFormat plan w os).1.fs = w.fs := by
+theorem runChildrenFormat_fs (plan : Fault) (w : W) (os : List Fmt) :
+    (runChildrenFormat plan w os).1.fs = w.fs ∧ (runChildrenFormat plan w os).1.buf = w.buf := by
   induction os generalizing w with
-  | nil => rfl
+  | nil => exact ⟨rfl, rfl⟩
   | cons o t ih =>
     simp only [runChildrenFormat]
     have h := doFormat_fs plan w o
@@ -52,14 +59,14 @@ theorem runChildrenFormat_fs (plan : Fault) (w : W) (os : List Fmt) : (runChildr
       rw [heq] at h
       have h2 := ih w'
       split
-      · next w'' e heq2 => rw [heq2] at h2; dsimp only at h h2 ⊢; rw [h2, h]
-      · next w'' rest heq2 => rw [heq2] at h2; dsimp only at h h2 ⊢; rw [h2, h]
+      · next w'' e heq2 => rw [heq2] at h2; dsimp only at h h2 ⊢; rw [h2.1, h2.2, h.1, h.2]; exact ⟨rfl, rfl⟩
+      · next w'' rest heq2 => rw [heq2] at h2; dsimp only at h h2 ⊢; rw [h2.1, h2.2, h.1, h.2]; exact ⟨rfl, rfl⟩
 
 theorem runSeg_dest (plan : Fault) (p : Problem) (w : W) (s : Seg) : (runSeg plan p w s).1.fs.dest = w.fs.dest := by
   cases s <;> simp only [runSeg]
   case blank => exact doWrite_dest plan w ""
   case modifiers =>
-    have h := runChildrenFormat_fs plan w p.modifiers
+    have h := (runChildrenFormat_fs plan w p.modifiers).1
     split
     · next w' e heq => rw [heq] at h; dsimp only at h ⊢; rw [h]
     · next w' ls heq => rw [heq] at h; dsimp only at h ⊢; rw [writeLines_dest, h]
@@ -75,41 +82,56 @@ theorem runSeq_dest (plan : Fault) (p : Problem) (w : W) (seq : List Seg) : (run
     · next w' e heq => rw [heq] at h; exact h
     · next w' heq => rw [heq] at h; dsimp only at h ⊢; rw [ih, h]
 
-/-! ## a body that ends without an exception appended the closed-form text to the temporary -/
+/-! ## a body that ends without an exception has accepted the closed-form text -/
 
 theorem doWrite_ok {plan : Fault} {w w' : W} {l : String} (h : doWrite plan w l = (w', none)) :
-    w'.fs = fsAppendTmp w.fs l ∧ encodable l = true := by
+    encodable l = true ∧ ∀ c, Acc w c → Acc w' (c ++ [l]) := by
+  have key1 : ∀ c, Acc w c →
+      Acc { w with buf := [], nwr := w.nwr + 1, lineno := w.lineno + 1,
+                   fs := fsFlushTmp w.fs (w.buf ++ [l]) } (c ++ [l]) := by
+    intro c ⟨t, ht, hc⟩
+    exact ⟨t ++ (w.buf ++ [l]), by simp [fsFlushTmp, ht], by simp [← hc]⟩
+  have key2 : ∀ c, Acc w c →
+      Acc { w with buf := w.buf ++ [l], nwr := w.nwr + 1, lineno := w.lineno + 1 } (c ++ [l]) := by
+    intro c ⟨t, ht, hc⟩
+    exact ⟨t, ht, by simp [← hc]⟩
   unfold doWrite at h
   cases plan <;> dsimp only at h <;> (repeat' split at h) <;>
     first
-    | (obtain ⟨rfl, -⟩ := Prod.mk.inj h; exact ⟨rfl, by assumption⟩)
+    | (obtain ⟨rfl, -⟩ := Prod.mk.inj h; exact ⟨by assumption, key1⟩)
+    | (obtain ⟨rfl, -⟩ := Prod.mk.inj h; exact ⟨by assumption, key2⟩)
     | (exact absurd (Prod.mk.inj h).2 (by simp))
 
-theorem writeLines_ok {plan : Fault} {ls : List String} {w w' : W} {c : List String}
-    (h : writeLines plan w ls = (w', none)) (hc : w.fs.tmp = some c) :
-    w'.fs.tmp = some (c ++ ls) ∧ ls.all encodable = true := by
-  induction ls generalizing w c with
-  | nil => simp only [writeLines] at h; cases h; simp [hc]
+theorem writeLines_ok {plan : Fault} {ls : List String} {w w' : W}
+    (h : writeLines plan w ls = (w', none)) :
+    ls.all encodable = true ∧ ∀ c, Acc w c → Acc w' (c ++ ls) := by
+  induction ls generalizing w with
+  | nil => simp only [writeLines] at h; cases h; exact ⟨rfl, fun c hc => by simpa using hc⟩
   | cons l t ih =>
     simp only [writeLines] at h
     split at h
     · cases h
     · next w1 heq =>
       have ⟨h1, h2⟩ := doWrite_ok heq
-      have hc1 : w1.fs.tmp = some (c ++ [l]) := by rw [h1]; simp [fsAppendTmp, hc]
-      have ⟨h3, h4⟩ := ih h hc1
-      refine ⟨by rw [h3]; simp, by simp [h2, h4]⟩
+      have ⟨h3, h4⟩ := ih h
+      refine ⟨by simp [h1, h3], fun c hc => ?_⟩
+      have := h4 _ (h2 c hc)
+      simpa using this
 
 theorem doFormat_ok {plan : Fault} {w w' : W} {o : Fmt} {ls : List String}
     (h : doFormat plan w o = (w', .ok ls)) : o = .lines ls := by
   unfold doFormat at h
   cases plan <;> cases o <;> dsimp only at h <;> (repeat' split at h) <;> simp_all
 
-theorem writeObjects_ok {plan : Fault} {os : List Fmt} {w w' : W} {c : List String}
-    (h : writeObjects plan w os = (w', none)) (hc : w.fs.tmp = some c) :
-    ∃ out, linesOf os = some out ∧ w'.fs.tmp = some (c ++ out) ∧ out.all encodable = true := by
-  induction os generalizing w c with
-  | nil => simp only [writeObjects] at h; cases h; exact ⟨[], rfl, by simp [hc], rfl⟩
+theorem Acc_of_eq {w w' : W} {c : List String} (hfs : w'.fs = w.fs) (hb : w'.buf = w.buf) (h : Acc w c) : Acc w' c := by
+  obtain ⟨t, ht, hc⟩ := h
+  exact ⟨t, by rw [hfs]; exact ht, by rw [hb]; exact hc⟩
+
+theorem writeObjects_ok {plan : Fault} {os : List Fmt} {w w' : W}
+    (h : writeObjects plan w os = (w', none)) :
+    ∃ out, linesOf os = some out ∧ out.all encodable = true ∧ ∀ c, Acc w c → Acc w' (c ++ out) := by
+  induction os generalizing w with
+  | nil => simp only [writeObjects] at h; cases h; exact ⟨[], rfl, rfl, fun c hc => by simpa using hc⟩
   | cons o t ih =>
     simp only [writeObjects] at h
     split at h
@@ -121,13 +143,12 @@ theorem writeObjects_ok {plan : Fault} {os : List Fmt} {w w' : W} {c : List Stri
       split at h
       · cases h
       · next w2 heq2 =>
-        have hc1 : w1.fs.tmp = some c := by rw [hfs]; exact hc
-        have ⟨h3, h4⟩ := writeLines_ok heq2 hc1
-        have ⟨out, h5, h6, h7⟩ := ih h h3
-        refine ⟨ls ++ out, ?_, ?_, ?_⟩
+        have ⟨h3, h4⟩ := writeLines_ok heq2
+        have ⟨out, h5, h6, h7⟩ := ih h
+        refine ⟨ls ++ out, ?_, by simp [h3, h6], fun c hc => ?_⟩
         · subst ho; simp [linesOf, h5]
-        · rw [h6]; simp
-        · simp [h4, h7]
+        · have := h7 _ (h4 c (Acc_of_eq hfs.1 hfs.2 hc))
+          simpa using this
 
 theorem runChildrenFormat_ok {plan : Fault} {os : List Fmt} {w w' : W} {ls : List String}
     (h : runChildrenFormat plan w os = (w', .ok ls)) : linesOf os = some ls := by
@@ -146,14 +167,14 @@ theorem runChildrenFormat_ok {plan : Fault} {os : List Fmt} {w w' : W} {ls : Lis
         cases h
         subst ho; simp [linesOf, this]
 
-theorem runSeg_ok {plan : Fault} {p : Problem} {s : Seg} {w w' : W} {c : List String}
-    (h : runSeg plan p w s = (w', none)) (hc : w.fs.tmp = some c) :
-    ∃ out, segLines p s = some out ∧ w'.fs.tmp = some (c ++ out) ∧ out.all encodable = true := by
+theorem runSeg_ok {plan : Fault} {p : Problem} {s : Seg} {w w' : W}
+    (h : runSeg plan p w s = (w', none)) :
+    ∃ out, segLines p s = some out ∧ out.all encodable = true ∧ ∀ c, Acc w c → Acc w' (c ++ out) := by
   cases s
   case blank =>
     simp only [runSeg] at h
     have ⟨h1, h2⟩ := doWrite_ok h
-    exact ⟨[""], rfl, by rw [h1]; simp [fsAppendTmp, hc], by simp [h2]⟩
+    exact ⟨[""], rfl, by simp [h1], h2⟩
   case modifiers =>
     simp only [runSeg] at h
     split at h
@@ -161,31 +182,32 @@ theorem runSeg_ok {plan : Fault} {p : Problem} {s : Seg} {w w' : W} {c : List St
     · next w1 ls heq =>
       have hfs := runChildrenFormat_fs plan w p.modifiers
       rw [heq] at hfs; dsimp only at hfs
-      have hc1 : w1.fs.tmp = some c := by rw [hfs]; exact hc
-      have ⟨h3, h4⟩ := writeLines_ok h hc1
-      exact ⟨ls, by simpa [segLines, segObjects] using runChildrenFormat_ok heq, h3, h4⟩
+      have ⟨h3, h4⟩ := writeLines_ok h
+      exact ⟨ls, by simpa [segLines, segObjects] using runChildrenFormat_ok heq, h3,
+        fun c hc => h4 c (Acc_of_eq hfs.1 hfs.2 hc)⟩
   all_goals
     simp only [runSeg] at h
-    exact writeObjects_ok h hc
+    exact writeObjects_ok h
 
-theorem runSeq_ok {plan : Fault} {p : Problem} {seq : List Seg} {w w' : W} {c : List String}
-    (h : runSeq plan p w seq = (w', none)) (hc : w.fs.tmp = some c) :
-    ∃ out, renderSeq p seq = some out ∧ w'.fs.tmp = some (c ++ out) ∧ out.all encodable = true := by
-  induction seq generalizing w c with
-  | nil => simp only [runSeq] at h; cases h; exact ⟨[], rfl, by simp [hc], rfl⟩
+theorem runSeq_ok {plan : Fault} {p : Problem} {seq : List Seg} {w w' : W}
+    (h : runSeq plan p w seq = (w', none)) :
+    ∃ out, renderSeq p seq = some out ∧ out.all encodable = true ∧ ∀ c, Acc w c → Acc w' (c ++ out) := by
+  induction seq generalizing w with
+  | nil => simp only [runSeq] at h; cases h; exact ⟨[], rfl, rfl, fun c hc => by simpa using hc⟩
   | cons s t ih =>
     simp only [runSeq] at h
     split at h
     · cases h
     · next w1 heq =>
-      have ⟨a, h1, h2, h3⟩ := runSeg_ok heq hc
-      have ⟨b, h4, h5, h6⟩ := ih h h2
-      refine ⟨a ++ b, by simp [renderSeq, h1, h4], by rw [h5]; simp, by simp [h3, h6]⟩
+      have ⟨a, h1, h2, h3⟩ := runSeg_ok heq
+      have ⟨b, h4, h5, h6⟩ := ih h
+      refine ⟨a ++ b, by simp [renderSeq, h1, h4], by simp [h2, h5], fun c hc => ?_⟩
+      have := h6 _ (h3 c hc)
+      simpa using this
 
 /-! ## without a fault every object that formats is written -/
 
-theorem doWrite_none (w : W) (l : String) (h : encodable l = true) :
-    doWrite .none w l = ({ w with fs := fsAppendTmp w.fs l, nwr := w.nwr + 1, lineno := w.lineno + 1 }, none) := by
+theorem doWrite_none (w : W) (l : String) (h : encodable l = true) : ∃ w', doWrite .none w l = (w', none) := by
   simp [doWrite, h]
 
 theorem writeLines_none (w : W) (ls : List String) (h : ls.all encodable = true) :
@@ -194,7 +216,8 @@ theorem writeLines_none (w : W) (ls : List String) (h : ls.all encodable = true)
   | nil => exact ⟨w, rfl⟩
   | cons l t ih =>
     simp only [List.all_cons, Bool.and_eq_true] at h
-    simp only [writeLines, doWrite_none w l h.1]
+    obtain ⟨w1, h1⟩ := doWrite_none w l h.1
+    simp only [writeLines, h1]
     exact ih _ h.2
 
 theorem writeObjects_none (w : W) (os : List Fmt) (out : List String)
@@ -233,7 +256,7 @@ theorem runSeg_none (p : Problem) (w : W) (s : Seg) (out : List String)
   case blank =>
     simp only [segLines, Option.some.injEq] at h; subst h
     simp only [List.all_cons, List.all_nil, Bool.and_true] at he
-    exact ⟨_, by simp only [runSeg]; exact doWrite_none w "" he⟩
+    simp only [runSeg]; exact doWrite_none w "" he
   case modifiers =>
     simp only [segLines, segObjects] at h
     obtain ⟨w1, h1⟩ := runChildrenFormat_none w p.modifiers out h
